@@ -150,9 +150,11 @@ def runloop_cancel_guard(c: Ctx) -> tuple[bool, list[str]]:
     """Does every iteration of the run loop's `while` re-check `current_task().cancelling()` and leave the loop when it is set?"""
     rl = c.unit(SVC, 'EventBus._run_loop')
     g = c.cfg(rl)
-    whiles = [n for n in g.live_nodes() if n.kind == 'while' and '_is_running' in U(n.ast.test)]
+    # the processing loop: the `while` whose body performs the step (a folded helper may bring further, inner `while`s of its own)
+    whiles = [n for n in g.live_nodes() if n.kind == 'while' and any(isinstance(x, ast.Call) and call_name(x) == 'step' for b in n.ast.body for x in ast.walk(b))]
+    whiles = [n for n in whiles if not any(m is not n and q.lexically_in(n.ast, m.ast, 'body') for m in whiles)]
     if len(whiles) != 1:
-        return False, [f'{len(whiles)} `while self._is_running` loops in _run_loop']
+        return False, [f'{len(whiles)} loops around step() in _run_loop']
     head = whiles[0]
     loop = head.ast
     # names bound to asyncio.current_task()
